@@ -414,6 +414,13 @@ func (p *Parser) parseOperand() (Node, error) {
 func (p *Parser) parseConditionalExpression(condition Node) (Node, error) {
 	line := p.tokens[p.tokenIndex].Line
 
+	// a ? b : c ? d : ... nests to the right, one level per "?"
+	if p.depth >= maxNestingDepth {
+		return nil, fmt.Errorf("expression nested more than %d levels deep at line %d", maxNestingDepth, line)
+	}
+	p.depth++
+	defer func() { p.depth-- }()
+
 	// Skip the "?" token
 	p.tokenIndex++
 
